@@ -257,6 +257,8 @@ def units(tier, seed):
     for what in ('solve(A, int B)', 'solve(int A, B)', 'dot(A, int)', 'dot(int, A)'):
         add('integer constant/%s/D3,P2' % what, 'h_int_constant', what=what, D=3, P=2)
     add('solve/3x3,k1/UU/D3,P1', 'h_solve', n=3, k=1, kinds='UU', D=3, P=1)
+    add('solve/3x3,k1/NU/D2,P2', 'h_solve', n=3, k=1, kinds='NU', D=2, P=2)
+    add('solve/3x3,k2/UN/D2,P1', 'h_solve', n=3, k=2, kinds='UN', D=2, P=1)
     for fn in ('det', 'logdet'):
         add('%s/2x2/D%d,P2' % (fn, D), 'h_det', n=2, D=D, P=2, fn=fn)
         add('%s/2x2/D5,P1' % fn, 'h_det', n=2, D=5, P=1, fn=fn)
